@@ -14,6 +14,10 @@ CLAIMED = {
   text="Seeded search over (mode, input bytes, read plan) triples: the real xargs_main runs in-process with its stdin replaced by a simulated stream whose every read() result (chunk cut, short read, EINTR burst, terminal EIO) is dictated by the scenario; the delivered argument sequence and line structure are compared with a reference tokenizer written from the statement and, metamorphically, across all read plans of one input. Both tiers append an exhaustive sweep (all strings up to 4 / 6 symbols over a 7-symbol alphabet under every cut set). Evidence, not proof: a clean batch means no sampled schedule broke the property.",
   note="Trusted: the reference tokenizer (60 lines), the hook H1/H2 seams (stdin source and Command::status are stubs; everything between is real code), finite EINTR, sticky read errors.",
   tech=TECH+"seeded read-schedule (chunk cuts, short reads, EINTR, EIO) over an in-process xargs with simulated stdin; reference tokenizer + cross-schedule comparison"),
+ "C06": dict(
+  text="Seeded search over (argument count up to 600000, length distribution, RLIMIT_STACK, environment size and shape, -n/-s) with every invocation passed through to a real fork+execve of /bin/true under exactly the stack limit and environment the code under test computed against: the injected fault is the kernel answering E2BIG, so the judge of 'accepted by exec' is this kernel, not a model. The history must also show every argument delivered once in order, and an argument that cannot be passed at all reported with exit 1 and never handed to exec.",
+  note="Trusted: the Linux per-argument and budget rules are used only to classify which single arguments cannot be passed at all (with a gray zone around the POSIX headroom); stdin is a stub; fork/exec/wait are real.",
+  tech=TECH+"randomised OS-budget knobs (RLIMIT_STACK, environment) with real execve as the failing system call; history oracle over the spawn log"),
  "C19": dict(
   text="The child-outcome script is the fault sequence: seeded histories over exit 0 / 1..125 / 255, death by signal (with and without core), spawn errors (ENOENT, EACCES, ENOEXEC, ENOMEM, EAGAIN, E2BIG, ETXTBSY) at every position and length, plus xargs' own errors; the real classification and exit-status mapping code consumes fabricated wait statuses, and a calibration slice runs the same scripts with real child processes (simchild exiting / raising signals, a missing path, a non-executable file). Oracle: fold over the history (first fatal outcome stops the run; 123 iff some 1..125; own errors 1).",
   note="Trusted: ExitStatus::from_raw fabrication (cross-checked by the real-process slice), the fold (30 lines). Exit codes 126..254 are outside the statement and not generated.",
@@ -36,7 +40,7 @@ NA = {
  "C18":"relational statement over argv and file contents; its error-isolation clause is exercised inside C02",
 }
 PENDING = {k: "claimed in DESIGN.md; check still under construction (not yet registered)" for k in
-           ["C02","C06","C07","C08","C09","C10","C15"]}
+           ["C02","C07","C08","C09","C10","C15"]}
 
 def main():
     checks = []
